@@ -216,7 +216,11 @@ func (s *snapshotSink) done(err error) (snapshotMeta, error) {
 	verifPoint("snapsink.renamed", s.snaps, s.meta.index)
 	temp = nil
 	s.snaps.mu.Lock()
-	s.snaps.index, s.snaps.term = s.meta.index, s.meta.term
+	if s.meta.index > s.snaps.index {
+		// a snapshot that took long to store must not replace
+		// a newer one installed meanwhile
+		s.snaps.index, s.snaps.term = s.meta.index, s.meta.term
+	}
 	s.snaps.mu.Unlock()
 	_ = s.snaps.applyRetain() // todo: trace error
 	return s.meta, nil
